@@ -203,6 +203,23 @@ let do_ev args =
      | Some ev -> "R " ^ String.concat "," (List.map (fun c -> let c = int_of_nat c in if c >= r then Printf.sprintf "s%d" (c - r) else Printf.sprintf "r%d" (c + k)) ev))
   | _ -> "R BADREQ"
 
+(* ---- stream heap:  X <k> <r> <nblk> <lastnull> <rows> <cbmode> <api> <finish 0|1> <perm or -> <esi> ...
+   -> HL<setup>;<after each call>;<after finish or ->;<left after release>=<library blocks in source entries> *)
+let do_heap args =
+  match args with
+  | k :: r :: nblk :: ln :: rows :: cbm :: api :: fin :: perm :: esis ->
+    let nat s = nat_of_int (int_of_string s) in
+    let h = parse_rows rows in
+    let pm = if perm = "-" then [] else List.map nat (String.split_on_char ',' perm) in
+    (match heap_session (nat k) (nat r) (nat nblk) h (ln = "1") (nat cbm) (api = "1") (List.map nat esis) (fin = "1") pm with
+     | None -> "R STUCK-AT-SETUP"
+     | Some o ->
+       let calls = String.concat "," (List.map (fun x -> match x with None -> "STUCK" | Some v -> string_of_int (int_of_nat v)) o.ho_calls) in
+       let f = match o.ho_finish with None -> "-" | Some None -> "STUCK" | Some (Some (v, _)) -> string_of_int (int_of_nat v) in
+       let l = match o.ho_left with None -> "STUCK" | Some (a, b) -> Printf.sprintf "%d=%d" (int_of_nat a) (int_of_nat b) in
+       Printf.sprintf "R HL%d;%s;%s;%s" (int_of_nat o.ho_setup) calls f l)
+  | _ -> "R BADREQ"
+
 (* ---- stream bem:  Y <m 4|8> <k> <n>  -> the generator matrix as the model of the C's construction builds it *)
 let do_bem args =
   match args with
@@ -351,6 +368,7 @@ let () =
       | "Z" :: args -> print_endline (do_ev args)
       | "Y" :: args -> print_endline (do_bem args)
       | "A" :: args -> print_endline (do_api args)
+      | "X" :: args -> print_endline (do_heap args)
       | "U" :: size :: ws -> print_endline (match hweight_array_run (List.map z_of_string ws) (z_of_string size) with Some z -> "R " ^ string_of_z z | None -> "R UB")
       | _ -> print_endline "BADREQ"
     done
